@@ -1,3 +1,4 @@
+import Secp.Proofs.DriversWrap
 import Secp.Proofs.FieldMul
 import Secp.Proofs.FieldSmall
 /-
@@ -110,5 +111,12 @@ theorem alias_safe : (fieldKernels.all fun k => k.aliasSafe) = true := by decide
 example : (⟨2^26-1, 2^26-1, 2^26-1, 2^26-1, 2^26-1, 2^26-1, 2^26-1, 2^26-1, 2^26-1, 2^22-1⟩ : L10).MagLE 8 := by
   simp [L10.MagLE, LB, LB9]
 example : (⟨1, 0, 0, 0, 0, 0, 0, 0, 0, 0⟩ : L10).Tight := by simp [L10.Tight]
+
+/-! ### `FieldVal.SetByteSlice` (tools/gotr pass T8): the non-kernel wrapper around the `SetBytes` kernel, regenerated at value level -/
+
+theorem setByteSlice_wrapper (f : Nat) (b : Secp.Spec.Bytes) (hb : b.length < 2^32) :
+    Secp.Gen.Drivers.fieldSetByteSliceGen f b
+      = (decide (Secp.Spec.beNat (b.take 32) ≥ Secp.Spec.P), Secp.Spec.beNat (b.take 32)) :=
+  Secp.Proofs.DriversWrap.fieldSetByteSlice_regenerated f b hb
 
 end Secp.Props.C05
